@@ -310,6 +310,24 @@ def build(tier="quick", seed=0):
         pack.add(Obligation(name, lambda tier, name=name, template=template, minutes=minutes: prove_paths(name, th_template(template, minutes), judge_template, lambda m_, p: {}, allow_raise=("error",)),
                             replay=lambda w, template=template, minutes=minutes: {"call": "c17_template", "args": {"template": template.replace("/abs/arch/", ""), "minutes": minutes}}, functions=FU, mode="concrete histories of one writer on an empty directory"))
 
+    # a template without a directory part (as the writer's own default template) names files in the working directory
+    for label, template in (("file name only, no directory part", "{name}-{ts:%Y%m%dT%H}.records"), ("the default template", None)):
+        name = f"C17.template[{label}]"
+
+        def th_rel(template=template):
+            fresh_fs()
+            D = desc()
+            w = it.call(st.g["PathTemplateWriter"], [template] if template else [], {"name": "t"})
+            g = _dt.datetime(2017, 12, 6, 22, 10, tzinfo=UTC)
+            for j in range(2):
+                it.call(it.getattr_(w, "write"), [it.call(D, [], {"n": SInt(vs[j]), "s": f"r{j}", "_generated": g})], {})
+            it.call(it.getattr_(w, "close"), [], {})
+            return {path: [it.unbase(r.attrs["s"]) for r in rd_stream(path)] for path in sorted(it.vfs)}
+
+        want = {(template or "{name}-{ts:%Y%m%dT%H}.records.gz").format(name="t", ts=_dt.datetime(2017, 12, 6, 22, 10, tzinfo=UTC)): ["r0", "r1"]}
+        pack.add(Obligation(name, lambda tier, name=name, th_rel=th_rel, want=want: prove_paths(name, th_rel, lambda p, want=want: (p.value == want, f"files on disk {p.value}, the template names {want}"), lambda m_, p: {}, allow_raise=("error",)),
+                            replay=lambda w, template=template: {"call": "c17_template", "args": {"template": template, "minutes": [(22, 10), (22, 10)], "relative": True}}, functions=FU, mode="concrete history of one writer in an empty working directory"))
+
     # ------------------------------------------------------------------ canary / conformance / bounded
     def run_canary(tier):
         def th():
